@@ -4,7 +4,7 @@ package brutal
 
 // C11 — Brutal sends at the configured rate: bounded above, never stalled.
 //
-// Two harness parts live in this file (a third, pacer-only, is in package common):
+// Three harness parts live in this file (real quic-go: c11_quic_test.go; pacer-only: package common):
 //
 //   brutal-sendloop  a simulated QUIC send loop around a real BrutalSender on a purely virtual
 //                    monotonic clock. The loop mirrors quic-go's call discipline
@@ -16,6 +16,11 @@ package brutal
 //                    OnCongestionEventEx(priorInFlight, now, acked, lost), never both empty; RTT is
 //                    updated before the controller is told; SetMaxDatagramSize when an MTU probe is
 //                    acknowledged).
+//   brutal-window    short call sequences where the one-datagram floor is what determines the window
+//                    (64..200 KB/s with RTT 0..10 ms, rate x RTT x 2 just below / above one datagram):
+//                    window reads, MTU raises at arbitrary points, ack/loss batches, sends and rare RTT
+//                    changes on a fake RTTStatsProvider that otherwise keeps returning the same value; the
+//                    floor is asserted against the CURRENT datagram size after every call.
 //   brutal-ackrate   OnCongestionEventEx driven directly with synthetic ack/loss batches over long
 //                    virtual time spans (second boundaries, multi-second silences, totals walking
 //                    through the 50-sample threshold, loss rates around the 0.8 clamp).
@@ -32,7 +37,7 @@ package brutal
 //               is pacing limited the announced time is non-zero and strictly after now, and at the
 //               announced time (no intervening send/ack/loss/MTU event) there is budget for a full
 //               datagram.
-//   rate floor  (from the title "sends at the configured rate" and the anchor "pacer bandwidth =
+//   rate floor  OBSERVED ONLY, counter obs_saturated_rate_below_configured, not a verdict (from the title "sends at the configured rate" and the anchor "pacer bandwidth =
 //               bps / ackRate") while the loop is saturated — always has data, wakes exactly when
 //               the pacer says, never window limited — it moves at least bps * elapsed bytes, up to
 //               one datagram plus integer rounding.
@@ -60,7 +65,10 @@ const (
 // ---------------------------------------------------------------------------------------------
 // fake RTTStatsProvider
 
-type vfC11RTT struct{ srtt time.Duration }
+type vfC11RTT struct {
+	srtt  time.Duration
+	fixed bool // a path whose smoothed RTT does not move: consecutive window reads see the same RTT
+}
 
 func (r *vfC11RTT) MinRTT() time.Duration        { return r.srtt }
 func (r *vfC11RTT) LatestRTT() time.Duration     { return r.srtt }
@@ -69,7 +77,7 @@ func (r *vfC11RTT) MeanDeviation() time.Duration { return r.srtt / 2 }
 func (r *vfC11RTT) MaxAckDelay() time.Duration   { return 25 * time.Millisecond }
 func (r *vfC11RTT) PTO(bool) time.Duration       { return r.srtt + 2*r.srtt + 25*time.Millisecond }
 func (r *vfC11RTT) UpdateRTT(sendDelta, ackDelay time.Duration) {
-	if sendDelta <= 0 { // quic-go ignores non-positive samples
+	if sendDelta <= 0 || r.fixed { // quic-go ignores non-positive samples
 		return
 	}
 	if r.srtt == 0 {
@@ -288,6 +296,7 @@ type vfC11Params struct {
 	SetMDS   int64   `json:"initial_set_max_datagram_size"` // 0: never told, controller default 1280
 	Probes   []int64 `json:"mtu_probe_sizes"`
 	NetRTTns int64   `json:"net_rtt_ns"`
+	FixedRTT int64   `json:"fixed_smoothed_rtt_ns"` // -1: the estimate follows the samples; >= 0: provider always returns this
 	Loss0    float64 `json:"initial_loss_p"`
 	StartNs  int64   `json:"clock_start_ns"`
 	Steps    int     `json:"step_budget"`
@@ -391,6 +400,22 @@ func vfC11GenParams(r *rand.Rand, id string, quick bool) vfC11Params {
 	}
 	p.Loss0 = vfC11PickLoss(r)
 	p.StartNs = vfC11Hour + r.Int63n(int64(10*time.Second))
+	p.FixedRTT = -1
+	if r.Intn(3) == 0 {
+		p.FixedRTT = p.NetRTTns
+		if r.Intn(2) == 0 {
+			p.FixedRTT = r.Int63n(int64(10 * time.Millisecond))
+		}
+		if r.Intn(2) == 0 { // slow enough that 2 x rate x RTT stays below one datagram: the floor is the window
+			p.Bps = uint64(vfC11MinRate + r.Int63n(200_000-vfC11MinRate))
+			if len(p.Probes) == 0 {
+				p.Probes = []int64{cur + 1 + r.Int63n(vfC11MaxMTU-cur+1)}
+				if p.Probes[0] > vfC11MaxMTU {
+					p.Probes[0] = vfC11MaxMTU
+				}
+			}
+		}
+	}
 	mds := int64(vfC11MinMTU)
 	burstPkts := int(math.Max(float64(p.Bps)/0.8*0.004, float64(10*mds)) / float64(mds))
 	p.Steps = 2500 + 4*burstPkts
@@ -405,7 +430,11 @@ func vfC11GenParams(r *rand.Rand, id string, quick bool) vfC11Params {
 }
 
 func vfC11NewSim(k *vfKit, p vfC11Params, r *rand.Rand) *vfC11Sim {
-	s := &vfC11Sim{k: k, p: p, r: r, rtt: &vfC11RTT{}, now: p.StartNs, mds: vfC11DefaultMDS,
+	rtt := &vfC11RTT{}
+	if p.FixedRTT >= 0 {
+		rtt.srtt, rtt.fixed = time.Duration(p.FixedRTT), true
+	}
+	s := &vfC11Sim{k: k, p: p, r: r, rtt: rtt, now: p.StartNs, mds: vfC11DefaultMDS,
 		nextAck: math.MaxInt64, lossP: p.Loss0, probes: append([]int64(nil), p.Probes...)}
 	s.b = NewBrutalSender(p.Bps, p.NoComp)
 	s.b.SetRTTStatsProvider(s.rtt) // quic-go does this inside SetCongestionControl
@@ -596,6 +625,10 @@ func (s *vfC11Sim) deliverAcks() {
 	if newMDS != 0 && mtuFirst {
 		s.b.SetMaxDatagramSize(congestion.ByteCount(newMDS))
 		s.mds = newMDS
+		s.note("mtu-raised", newMDS, 0)
+		if !vfC11CheckWindow(s.k, s.replay, s.b, s.mds, "right after SetMaxDatagramSize") {
+			s.fail()
+		}
 	}
 	var acked []congestion.AckedPacketInfo
 	var lost []congestion.LostPacketInfo
@@ -618,9 +651,10 @@ func (s *vfC11Sim) deliverAcks() {
 	if newMDS != 0 && !mtuFirst {
 		s.b.SetMaxDatagramSize(congestion.ByteCount(newMDS))
 		s.mds = newMDS
-	}
-	if newMDS != 0 {
 		s.note("mtu-raised", newMDS, 0)
+		if !vfC11CheckWindow(s.k, s.replay, s.b, s.mds, "right after SetMaxDatagramSize") {
+			s.fail()
+		}
 	}
 	if !vfC11CheckWindow(s.k, s.replay, s.b, s.mds, "after ack/loss event") {
 		s.fail()
@@ -911,6 +945,149 @@ func TestVerifC11AckRate(t *testing.T) {
 				s.Events = s.Events[:12]
 			}
 			k.Sample(map[string]any{"case (first 12 events)": s, "events": nev, "final_factor": b.ackRate})
+		}
+	}
+}
+
+// ---------------------------------------------------------------------------------------------
+// part 3: the window floor where it binds
+
+type vfC11WinCase struct {
+	CaseID  string   `json:"case_id"`
+	Bps     uint64   `json:"bps"`
+	NoComp  bool     `json:"disable_loss_compensation"`
+	SetMDS  int64    `json:"initial_set_max_datagram_size"` // 0: never told, controller default 1280
+	RTTns   int64    `json:"smoothed_rtt_ns"`
+	StartNs int64    `json:"clock_start_ns"`
+	Ops     []string `json:"calls"`
+}
+
+func TestVerifC11Window(t *testing.T) {
+	k := vfNewKit(t, "C11", "brutal-window")
+	defer k.Finish()
+	n := k.N(6000, 200000)
+	ackedPool := make([]congestion.AckedPacketInfo, 600)
+	lostPool := make([]congestion.LostPacketInfo, 600)
+	for i := 0; i < n; i++ {
+		id := fmt.Sprintf("win-%d", i)
+		if rc := k.ReplayCase(); rc != "" && rc != id {
+			continue
+		}
+		r := k.Rand(id)
+		c := vfC11WinCase{CaseID: id, NoComp: r.Intn(6) == 0, StartNs: vfC11Hour + r.Int63n(int64(10*time.Second))}
+		mds := int64(vfC11DefaultMDS)
+		if r.Intn(2) == 0 {
+			c.SetMDS = vfC11MinMTU + r.Int63n(251) // 1200..1450: room for raises
+			mds = c.SetMDS
+		}
+		switch q := r.Intn(10); {
+		case q < 2:
+			c.RTTns = 0
+		case q < 7:
+			c.RTTns = 1 + r.Int63n(int64(10*time.Millisecond))
+		default:
+			c.RTTns = int64(time.Millisecond) + r.Int63n(int64(500*time.Millisecond))
+		}
+		switch q := r.Intn(10); {
+		case q < 5: // the slow end: with RTT <= 10 ms the floor is the window
+			c.Bps = uint64(vfC11MinRate + r.Int63n(200_000-vfC11MinRate))
+		case q < 8 && c.RTTns > 0: // 2 x rate x RTT within +-15 % of one datagram
+			bps := float64(mds) / (2 * float64(c.RTTns) / 1e9) * (0.85 + 0.3*r.Float64())
+			c.Bps = uint64(math.Min(math.Max(bps, vfC11MinRate), vfC11MaxRate))
+		default:
+			c.Bps = vfC11PickRate(r)
+		}
+		rtt := &vfC11RTT{srtt: time.Duration(c.RTTns), fixed: true}
+		b := NewBrutalSender(c.Bps, c.NoComp)
+		b.SetRTTStatsProvider(rtt)
+		if c.SetMDS != 0 {
+			b.SetMaxDatagramSize(congestion.ByteCount(c.SetMDS))
+		}
+		m := vfC11NewAckModel(c.NoComp)
+		rep := func() any { return c }
+		now := c.StartNs
+		var inflight, pn int64
+		lossP := vfC11PickLoss(r)
+		floorBinds := false
+		raisedWhileFloor := false
+		k.Eval()
+		nops := 30 + r.Intn(60)
+		ok := true
+		for o := 0; o < nops && ok; o++ {
+			now += r.Int63n(int64(20 * time.Millisecond))
+			var what string
+			switch q := r.Intn(100); {
+			case q < 25: // plain reads, as SendMode / the qlog metrics do
+				w := b.GetCongestionWindow()
+				cs := b.CanSend(congestion.ByteCount(inflight))
+				what = fmt.Sprintf("GetCongestionWindow()=%d CanSend(%d)=%v", w, inflight, cs)
+			case q < 45 && mds < vfC11MaxMTU: // path MTU discovery succeeded
+				mds += 1 + r.Int63n(vfC11MaxMTU-mds)
+				b.SetMaxDatagramSize(congestion.ByteCount(mds))
+				what = fmt.Sprintf("SetMaxDatagramSize(%d)", mds)
+				k.Count("ev_mtu_raises", 1)
+				if floorBinds {
+					raisedWhileFloor = true
+					k.Count("mtu_raises_while_floor_binds", 1)
+				}
+			case q < 65:
+				size := mds
+				pn++
+				inflight += size
+				b.HasPacingBudget(monotime.Time(now))
+				b.OnPacketSent(monotime.Time(now), congestion.ByteCount(inflight), congestion.PacketNumber(pn), congestion.ByteCount(size), true)
+				what = fmt.Sprintf("OnPacketSent(t=%d, inflight %d, %d B)", now, inflight, size)
+			case q < 90:
+				cnt := 1 + r.Intn(8)
+				if r.Intn(3) == 0 {
+					cnt = 30 + r.Intn(500)
+				}
+				nl := 0
+				for j := 0; j < cnt; j++ {
+					if r.Float64() < lossP {
+						nl++
+					}
+				}
+				na := cnt - nl
+				var acked []congestion.AckedPacketInfo
+				var lost []congestion.LostPacketInfo
+				if na > 0 {
+					acked = ackedPool[:na]
+				}
+				if nl > 0 {
+					lost = lostPool[:nl]
+				}
+				prior := inflight
+				inflight = 0
+				b.OnCongestionEventEx(congestion.ByteCount(prior), monotime.Time(now), acked, lost)
+				k.Count("ev_ack_loss_events", 1)
+				what = fmt.Sprintf("OnCongestionEventEx(t=%d, acked %d, lost %d)", now, na, nl)
+				ok = vfC11CheckAckRate(k, rep, b, m, now, na, nl)
+			case q < 95: // a new RTT estimate (rare: most consecutive reads see the same one)
+				rtt.srtt = time.Duration(r.Int63n(int64(12 * time.Millisecond)))
+				what = fmt.Sprintf("smoothed RTT := %d ns", int64(rtt.srtt))
+			default:
+				lossP = vfC11PickLoss(r)
+				continue
+			}
+			c.Ops = append(c.Ops, what)
+			k.Count("ev_window_part_calls", 1)
+			if !ok {
+				break
+			}
+			ok = vfC11CheckWindow(k, rep, b, mds, "after "+what)
+			if rtt.srtt > 0 && 2*float64(c.Bps)*rtt.srtt.Seconds()/0.8 < float64(mds) {
+				floorBinds = true
+				k.Count("checks_with_floor_binding", 1)
+			} else {
+				floorBinds = false
+			}
+		}
+		if raisedWhileFloor {
+			k.Nontrivial(fmt.Sprintf("%+v", c))
+		}
+		if i < 2 {
+			k.Sample(c)
 		}
 	}
 }
